@@ -32,7 +32,7 @@ def _run_one(arg):
     signal.signal(signal.SIGALRM, on_alarm)
     signal.alarm(TASK_TIMEOUT_S)
     try:
-        res = mod.run_task(task)
+        res = guarded(repr(task)[:200], mod.run_task, task)
     except TimeoutError:
         res = {"task": repr(task), "obligations": [], "undecided": "task timeout"}
     except Exception:
@@ -41,6 +41,35 @@ def _run_one(arg):
         signal.alarm(0)
     res["wall_s"] = round(time.time() - t0, 3)
     return res
+
+
+def _from_code_under_test(tb):
+    """True if the innermost frame of the traceback is in the repository under verification."""
+    repo = os.path.realpath(os.environ.get("VERIF_REPO", "/repo")) + os.sep
+    last = traceback.extract_tb(tb)[-1]
+    return os.path.realpath(last.filename).startswith(repo)
+
+
+def guarded(name, fn, *args, **kwargs):
+    """Runs one unit of a task.  An exception raised *by the code under verification* on a legal
+    input is an exception-safety violation (a refuted obligation whose failing input is the unit
+    itself); an exception raised by the checker's own code is re-raised (checker crash)."""
+    import sys as _sys
+    from .sym import Unsupported
+    try:
+        return fn(*args, **kwargs)
+    except (TimeoutError, Unsupported, MemoryError):
+        raise
+    except Exception as e:
+        tb = _sys.exc_info()[2]
+        if not _from_code_under_test(tb):
+            raise
+        text = traceback.format_exc()
+        return {"task": name, "paths": 0, "solver_s": 0.0, "obligations": [{
+            "name": f"{name}::no-exception", "kind": "post", "status": "refuted", "backend": "cpython",
+            "time_s": 0.0, "model": {"exception": repr(e)},
+            "failing_input": {"unit": name, "exception": repr(e), "traceback": text[-1500:],
+                              "how": "the real code raised while building / compiling / running this legal design"}}]}
 
 
 def from_exploration(task_id, x, extra=None):
@@ -208,8 +237,8 @@ def main(argv=None):
     vio_records = []
     for (res, ob) in violations:
         extra = {}
-        found = None
-        if hasattr(mod, "find_failing_input"):
+        found = ob.get("failing_input")
+        if found is None and hasattr(mod, "find_failing_input"):
             try:
                 found = mod.find_failing_input(res, ob)
             except Exception:
